@@ -29,7 +29,8 @@ def classify(w):
 
 class Script:
     def __init__(self):
-        self.modes = {}        # attempt number -> 'S' | 'N' | 'L' | 'H'
+        self.modes = {}        # attempt number -> 'S' | 'N' | 'L' | 'H' | 'P'
+        self.partial_ns = None
         self.n = 0
         self.connect_frames = []
         self.lost_in = set()
@@ -52,6 +53,16 @@ class Script:
             h.deliver(R.CONNECT, pkt['nsp'], None, {'sid': 's%d' % self.n})
         elif mode == 'N':
             h.deliver(R.CONNECT_ERROR, pkt['nsp'], None, {'message': 'no'})
+        elif mode == 'P':
+            # partial refusal: only the last requested namespace is refused,
+            # the others are accepted - the attempt has failed all the same
+            if pkt['nsp'] == self.partial_ns:
+                h.deliver(R.CONNECT_ERROR, pkt['nsp'], None,
+                          {'message': 'not this one'})
+            else:
+                self.n += 1
+                h.deliver(R.CONNECT, pkt['nsp'], None,
+                          {'sid': 's%d' % self.n})
         elif mode == 'L':
             if att not in self.lost_in:
                 self.lost_in.add(att)
@@ -130,6 +141,7 @@ class Scenario:
         self.abort_at = abort_at
         self.then = then
         self.script = Script()
+        self.script.partial_ns = nss[-1]
         d, dmax, rf, att = params
         self.h = E.make_client(kind, script=self.script, client_kw=dict(
             reconnection=cause != 'disabled', reconnection_attempts=att,
@@ -564,7 +576,7 @@ def patterns(maxlen_tnl, maxlen_tn):
     out = ['']
     for n in range(1, maxlen_tnl + 1):
         out += [''.join(p) for p in itertools.product(
-            'TNLH' if n <= 2 else 'TNL', repeat=n)]
+            'TNLHP' if n <= 2 else 'TNL', repeat=n)]
     for n in range(maxlen_tnl + 1, maxlen_tn + 1):
         out += [''.join(p) for p in itertools.product('TN', repeat=n)]
     return out
@@ -572,7 +584,8 @@ def patterns(maxlen_tnl, maxlen_tn):
 
 def run(ctx):
     ctx.rule = ('fault enumeration: every failure pattern over {T transport '
-                'refusal, N namespace refusal, L loss during the attempt} up '
+                'refusal, N namespace refusal, P refusal of one of several '
+                'namespaces, L loss during the attempt} up '
                 'to length 4 (T/N up to 6) x parameter grid (delay, '
                 'delay_max, randomization, attempts) x {Client, AsyncClient}'
                 ' x namespace sets; abort (shutdown) at every back-off wait; '
@@ -625,7 +638,7 @@ def run(ctx):
             for params in grid[::5]:
                 jobs.append((kind, params, 'TT', cause, None, None))
     # follow-ups
-    for p in ['', 'T', 'NT', 'L', 'H', 'HT']:
+    for p in ['', 'T', 'NT', 'L', 'H', 'HT', 'P', 'LT', 'LL', 'PT']:
         for kind in ('sync', 'async'):
             for params in [(1, 5, 0.5, 0), (0.5, 1, 0, 6)]:
                 jobs.append((kind, params, p, 'loss', None, 'loss_again'))
